@@ -23,9 +23,23 @@ fn collect<'a, T: DiffableStr + ?Sized + 'a>(d: &'a TextDiff<'a, 'a, 'a, T>) -> 
     (all, per_op)
 }
 
+thread_local! {
+    /// newline_terminated override applied by run_diff (0 none, 1 true, 2 false)
+    static NL_OVERRIDE: std::cell::Cell<u8> = std::cell::Cell::new(0);
+}
+
 fn run_diff(tok: usize, alg: Algorithm, as_str: bool, a: &[u8], b: &[u8], fuel: Option<u64>) -> (Vec<Row>, Vec<Row>) {
     let mut c = TextDiff::configure();
     c.algorithm(alg);
+    match NL_OVERRIDE.with(|x| x.get()) {
+        1 => {
+            c.newline_terminated(true);
+        }
+        2 => {
+            c.newline_terminated(false);
+        }
+        _ => {}
+    }
     if let Some(k) = fuel {
         // a deadline that the virtual clock lets expire at its k-th check
         c.deadline(far_deadline());
@@ -290,6 +304,53 @@ pub fn families() -> Vec<Box<dyn Family>> {
                 out.nontrivial(&(head, tail, l1, l2));
                 out.count("asymmetric_block_cases");
                 long_case(&a, &b, out);
+            },
+        ),
+        family(
+            "aliased_and_flags",
+            "(a) old and new are ALIASING views of one buffer (text vs its own prefix / suffix / trimmed form, cut on character boundaries), (b) G-TXT pairs diffed with the newline_terminated flag overridden to true / false: x 5 tokenizers x 3 algorithms x {str,[u8]}",
+            false,
+            8,
+            |cfg| cfg.n(3_000, 60_000),
+            |idx, cfg, out| {
+                let mut rng = Rng::for_case(cfg.seed, "c04.aliased_and_flags", idx);
+                if idx % 2 == 0 {
+                    let (t, _) = text_gen::text_pair(&mut rng, if cfg.tiny { 2 } else { 7 }, false);
+                    let s = String::from_utf8(t).unwrap();
+                    let cuts: Vec<usize> = s.char_indices().map(|x| x.0).chain(std::iter::once(s.len())).collect();
+                    let k = cuts[rng.below(cuts.len())];
+                    let (a, b): (&str, &str) = match rng.below(5) {
+                        0 => (&s[..], &s[..k]),
+                        1 => (&s[..k], &s[..]),
+                        2 => (&s[..], &s[k..]),
+                        3 => (&s[..], s.trim_end()),
+                        // same start, the last token differs only in length
+                        _ => (&s[..s.len().saturating_sub(s.chars().last().map_or(0, |c| c.len_utf8()))], &s[..]),
+                    };
+                    out.sample(|| format!("aliased views: old={:?} new={:?}", a, b));
+                    if a != b {
+                        out.nontrivial(&(a, b));
+                    }
+                    out.count("aliased_pairs");
+                    case(a.as_bytes(), b.as_bytes(), &ALGS, cfg.tiny, out);
+                } else {
+                    let (a, b) = text_gen::text_pair(&mut rng, if cfg.tiny { 2 } else { 7 }, idx % 6 == 1);
+                    let flag = 1 + (idx / 2 % 2) as u8;
+                    out.sample(|| format!("newline_terminated({}) old={} new={}", flag == 1, show(&a), show(&b)));
+                    if a != b {
+                        out.nontrivial(&(&a, &b, flag));
+                    }
+                    struct Reset;
+                    impl Drop for Reset {
+                        fn drop(&mut self) {
+                            NL_OVERRIDE.with(|x| x.set(0));
+                        }
+                    }
+                    let _reset = Reset;
+                    NL_OVERRIDE.with(|x| x.set(flag));
+                    out.count("flag_override_cases");
+                    case(&a, &b, &ALGS, cfg.tiny, out);
+                }
             },
         ),
         family(
